@@ -88,7 +88,7 @@ func init() {
 	specs["C03"] = &checkSpec{
 		id:    "C03",
 		level: "exploration",
-		rule: "one evaluation = one crossing call inside a seeded call history (1-40 calls of CrossingSign, ChainCrossingSign, EdgeOrVertexCrossing, EdgeOrVertexChainCrossing, RestartAt on one EdgeCrosser, constructed either way) over a pool of 3-8 points mixing general points, points exactly on a common great circle (determinant exactly zero), points a few ulps off it, near-duplicates, so that vertices repeat, equal A or B and chains revisit themselves. Each answer is compared with (1) the stateless function on a brand-new crosser and (2) the four-orientation criterion in exact rational arithmetic (library perturbation consulted only where a determinant is exactly zero), plus reversal/swap symmetry, and on every visited quadruple with shared vertices the vertex-crossing rule (invariant under reversing an edge; exactly one of VC(ab,cd), VC(cd,ab) when one vertex is shared; true for identical or reversed edges). " +
+		rule: "one evaluation = one crossing call inside a seeded call history (1-40 calls of CrossingSign, ChainCrossingSign, EdgeOrVertexCrossing, EdgeOrVertexChainCrossing, RestartAt on one to three EdgeCrossers that are alive at the same time and whose calls interleave, each constructed either way) over a pool of 3-8 points mixing general points, points exactly on a common great circle (determinant exactly zero), points a few ulps off it, near-duplicates, so that vertices repeat, equal A or B and chains revisit themselves. Each answer is compared with (1) the stateless function on a brand-new crosser and (2) the four-orientation criterion in exact rational arithmetic (library perturbation consulted only where a determinant is exactly zero), plus reversal/swap symmetry, and on every visited quadruple with shared vertices the vertex-crossing rule (invariant under reversing an edge; exactly one of VC(ab,cd), VC(cd,ab) when one vertex is shared; true for identical or reversed edges). " +
 			"Non-trivial = a history with at least two calls of at least two kinds; distinct = hash of the call-kind sequence, pool size and first coordinates.",
 		explanation: "history clause only: the crosser's cached state against a stateless model, the way a storage engine is checked against a map; no fault or schedule dimension exists for this type",
 		assumptions: []string{
